@@ -185,6 +185,9 @@ static sqf::runtime::runtime::result execute_do(sqf::runtime::runtime& runtime, 
                 "    " << "\x1B[36mEXIT execute_do\033[0m as max runtime (\x1B[90m" << runtime.configuration().max_runtime.count() << "ms\033[0m) was reached" << std::endl;
 #endif // DF__SQF_RUNTIME__ASSEMBLY_DEBUG_ON_EXECUTE
             runtime.__logmsg(logmessage::runtime::MaximumRuntimeReached((*instruction)->diag_info(), runtime.configuration().max_runtime));
+            // The diagnostic reports the abort, it is not an error of some statement: do not leave it pending for the next run
+            runtime_error = false;
+            runtime.log_messages.clear();
             runtime.exit(0);
             return sqf::runtime::runtime::result::ok;
         }
